@@ -172,6 +172,11 @@ def run(tier):
             continue    # CArc delegates to its CArcSome view
         ck.ob("B-owner-uses-its-slots", "cglue/" + o, "slot:drop_fn" in slot_users.get(o, set()), "%s never calls its stored drop function" % o, sample={"type": o, "slots": sorted(slot_users.get(o, []))})
     ck.ob("B-owner-uses-its-slots", "cglue/CVec::reserve", "slot:reserve_fn" in slot_users.get("cglue::vec::CVec", set()), "CVec never grows through its stored reserve function")
+    # ... and through nothing else: every path of CVec::reserve either keeps the buffer or calls reserve_fn(self, additional)
+    from rules import c11
+    c11.LOCAL_FNS.clear()
+    c11.LOCAL_FNS.update({p_: x for p_, x in fns.items() if "/vec.rs" in x["span"]})
+    c11.check_reserve(ck, {p_: x for p_, x in fns.items() if "/vec.rs" in x["span"]})
     # (ii) callers of IntoInner::into_inner: generated extern "C" wrappers only
     n_ii = 0
     for ff, unit, label in ((corpus.corpus_facts(tier), None, "corpus"), (facts.cfg_cglue(tests=True), "cglue-test", "cglue-tests"), (facts.cfg_examples(), None, "examples")):
